@@ -241,6 +241,26 @@ func runC09(c *Ctx) {
 						}
 					}
 					verify(fmt.Sprintf("cycle %d final", cycle))
+					// every source turns into one that selects nothing / something else,
+					// one at a time (a service loses its selector, a workload changes it,
+					// an ingress drops its backends)
+					for _, so := range srcSrv.Objects() {
+						np := proto(jd.srcKind, so.NS, so.NM, 0)
+						switch jd.srcKind {
+						case KService:
+							np.Sel = nil
+						case KIngress:
+							np.Backend, np.Paths = 0, nil
+						case KRC:
+							np.Sel = Map{{2, 3}}
+						default:
+							np.LSel = &LSel{Labels: Map{{2, 3}}}
+						}
+						srcSrv.Put(np)
+						verify(fmt.Sprintf("cycle %d source (%d,%d) stops selecting", cycle, so.NS, so.NM))
+					}
+					srcSrv.Put(proto(jd.srcKind, 1, 1, 1))
+					verify(fmt.Sprintf("cycle %d a source selects again", cycle))
 					// its events are a well-formed delta of its cache: replayed from empty they give the cache
 					if js != nil {
 						evs := js.received()
